@@ -277,3 +277,8 @@ def run(ctx):
         vec_eq(ctx, 'c05/assoc/l=r', assoc['r_assoc_l'], assoc['r_assoc_r'], 'alg≡: (p*q)*r = p*(q*r)', 'Quaternion::mul')
     ctx.floor('roots analysed', done, len(roots))
     if ctx.elem != 'i32': ctx.floor('obligations', ctx.obligations, 250)
+
+    # scalar + vector conversion to and from the optional mint quaternion (rule shared with C20)
+    if not ctx.only and ctx.elem == 'f32':
+        from .c20 import mint_rule
+        mint_rule(ctx, prefix='c05', only_kinds=('qfrom', 'qinto'))
